@@ -14,6 +14,9 @@ for d in sorted(glob.glob(os.path.join(ROOT, 'seeded', '*'))):
         if r['exit'] == 1:
             det.append('%s: `%s`' % (c, (r['signatures'] or ['?'])[0].replace('|', '¦')))
     missed = [c for c, r in sorted(m['checks'].items()) if r['exit'] != 1]
+    if m.get('status', '').startswith('unconfirmed'):
+        print('| %s | %s | %s | %s | not a valid seeded change: the pinned tests fail with it under some hash seeds (caught anyway: %s) |' % (name, m['breaks_property'], what, needs, ', '.join(m.get('detected_by', [])) or '-'))
+        continue
     if m.get('status', '').startswith('superseded'):
         print('| %s | %s | %s | %s | not a breaking change on the current tree (superseded by a repair, see meta.json) |' % (name, m['breaks_property'], what, needs))
         continue
